@@ -14,6 +14,14 @@ RULE = ("pairs of unit expressions (U1,U2) over the whole non-offset vocabulary 
         "exact SI-normalised sum/difference/converted value; otherwise an error and never a number. "
         "non-trivial = distinct query whose two sides are textually different and involve a derived or prefixed unit")
 
+IDENTITIES = [("Watt", [("Volt", 1), ("Ampere", 1)]), ("Joule", [("Watt", 1), ("Second", 1)]), ("Joule", [("Newton", 1), ("Meter", 1)]),
+              ("Siemens", [("Ohm", -1)]), ("Gray", [("Sievert", 1)]), ("Becquerel", [("Second", -1)]), ("Coulomb", [("Ampere", 1), ("Second", 1)]),
+              ("Volt", [("Watt", 1), ("Ampere", -1)]), ("Ohm", [("Volt", 1), ("Ampere", -1)]), ("Farad", [("Coulomb", 1), ("Volt", -1)]),
+              ("Weber", [("Volt", 1), ("Second", 1)]), ("Tesla", [("Weber", 1), ("Meter", -2)]), ("Henry", [("Weber", 1), ("Ampere", -1)]),
+              ("Pascal", [("Newton", 1), ("Meter", -2)]), ("Lux", [("Lumen", 1), ("Meter", -2)]), ("Katal", [("Mole", 1), ("Second", -1)]),
+              ("Watt", [("Joule", 1), ("Second", -1)]), ("Newton", [("Joule", 1), ("Meter", -1)]), ("Velocity", [("Meter", 1), ("Second", -1)]),
+              ("Acceleration", [("Meter", 1), ("Second", -2)]), ("Hectare", [("Meter", 2)]), ("Litre", [("Meter", 3)])]
+
 def mag(rng):
     """A positive magnitude as (text, Fraction): integer, decimal or exponent notation."""
     r = rng.random()
@@ -85,6 +93,42 @@ def shard(p):
             if not f2:
                 continue
             cases.append(("bigpow", f1, f2))
+        # respelling by a unit identity (W = V*A, J = W*s = N*m, S = 1/ohm, Gy ~ Sv, Bq = 1/s ...): both sides share unit NAMES,
+        # with different powers, and the surplus is made up by a dimensionally dependent unit (seed C02-d)
+        idents = []
+        for uname, parts in IDENTITIES:
+            eu = first_by_unit.get(uname)
+            eps = [(first_by_unit.get(n), pw) for n, pw in parts]
+            if eu is None or any(e is None for e, _ in eps):
+                continue
+            dsum = R.ZERO_DIMS
+            for e, pw in eps:
+                dsum = R.add_dims(dsum, e["dims"], pw)
+            if dsum == eu["dims"]:
+                idents.append((eu, eps))
+        for i in range(p["n"] // 10 if idents else 0):
+            eu, eps = rng.choice(idents)
+            m = {}
+            def addf(e, pw):
+                cur = m.get(e["key"], (e, 0))
+                m[e["key"]] = (cur[0], cur[1] + pw)
+            a_ = rng.choice([1, 1, 2])
+            for e, pw in eps:
+                addf(e, pw * a_)
+            if rng.random() < 0.5:
+                addf(eu, rng.choice([1, 1, 2, -1]))
+            if rng.random() < 0.4:
+                addf(rng.choice(idents)[0], rng.choice([1, -1]))
+            f1 = [(e, pw) for e, pw in m.values() if pw]
+            addf(eu, 1)
+            for e, pw in eps:
+                addf(e, -pw)
+            f2 = [(e, pw) for e, pw in m.values() if pw]
+            if not f1 or not f2:
+                continue
+            if rng.random() < 0.5:
+                f1, f2 = f2, f1
+            cases.append(("identity", f1, f2))
         for (a, b) in p["matrix"]:
             ea, eb = first_by_unit.get(a), first_by_unit.get(b)
             if ea and eb:
